@@ -3,7 +3,7 @@
 // Op grammar (one case = ops from a reset op `w.new` / `g.new` / `fc` / `pcr` to the next):
 //
 //	w.new <pl> <off> <cnt> <seed> <prefill>   piece of length pl, writer for [off, off+cnt); prefill = 0/1 per block or "-"
-//	w.write <n>                                writer.Write of the next n stream bytes
+//	w.write <n>                                writer.Write of the next n stream bytes, from the one re-used caller buffer (overwritten after the call)
 //	w.readfrom <len:e,...|->                   writer.ReadFrom of a scripted reader; e = n|e|f (nil, io.EOF, failure with the bytes)
 //	w.close                                    writer.Close
 //	s.fill                                     another source completes the piece (Finalise) -> AddData returns 0
@@ -362,11 +362,25 @@ func (s *state) wObs(n int64, err error, p string) string {
 	return fmt.Sprintf("n=%d err=%s off=%d cnt=%d buf=%d ev=%s", n, errClass(err), o, c, bl, evsStr(es))
 }
 
+// callerBuf is the ONE buffer every Write of the harness is made from, as io.CopyBuffer or an
+// HTTP body reader would: it is refilled for each call and overwritten with 0xAA as soon as Write
+// returns (io.Writer: "Write must not retain p").
+var callerBuf []byte
+
+const retainMark = 0xAA
+
 func (s *state) wWrite(n int) string {
-	p := patBytes(s.seed, s.off0+s.pos, n)
+	if cap(callerBuf) < n {
+		callerBuf = make([]byte, n+4096)
+	}
+	p := callerBuf[:n]
+	copy(p, patBytes(s.seed, s.off0+s.pos, n))
 	var k int
 	var err error
 	pn := vhlib.Recover(func() { k, err = s.w.Write(p) })
+	for i := range p {
+		p[i] = retainMark
+	}
 	if pn == "" {
 		s.pos += k
 		if !s.closed {
@@ -622,8 +636,23 @@ func (s *state) endWriterCase() {
 				s.c.Violate("writer-not-prefix:block", fmt.Sprintf("block %d stored but only %d bytes were accepted", b, s.pos), caseOps())
 				continue
 			}
-			if !bytes.Equal(data[lo:hi], patBytes(s.seed, lo, hi-lo)) {
-				s.c.Violate("writer-misplaced:block", fmt.Sprintf("block %d does not hold stream bytes [%d,%d)", b, lo-s.off0, hi-s.off0), caseOps())
+			if want := patBytes(s.seed, lo, hi-lo); !bytes.Equal(data[lo:hi], want) {
+				// are the wrong bytes (many of them) the mark the caller put into its buffer after Write returned?
+				marks, other := 0, 0
+				for i := range want {
+					if data[lo+i] != want[i] {
+						if data[lo+i] == retainMark {
+							marks++
+						} else {
+							other++
+						}
+					}
+				}
+				if marks > 0 && marks*4 >= marks+other { // far more marks than chance (1/256) explains
+					s.c.Violate("writer:retains-caller-buffer", fmt.Sprintf("block %d: %d bytes hold what the caller wrote into its buffer after Write had returned", b, marks), caseOps())
+				} else {
+					s.c.Violate("writer-misplaced:block", fmt.Sprintf("block %d does not hold stream bytes [%d,%d)", b, lo-s.off0, hi-s.off0), caseOps())
+				}
 			}
 		}
 	}
